@@ -99,6 +99,31 @@ def check(ctx):
             ctx.check(same, R, "C15/effective-address/connection-gets-same", site(H.task, bb),
                       reason="the connection is given %s, the limiter was asked about %s" % (render(src, maxdepth=3) if src else "?", render(eff, maxdepth=3) if eff else "?"),
                       detail="with_client_address(client_addr) — the value the limiter saw")
+    # the connection runs on the ProxiedStream itself (it replays bytes that were read past the header), never on an unwrapped socket
+    if H.task is not None:
+        news = calls(H.task, "Connection::<S, Stat, Disc, Filt, Stra, Auth, Loca>::new") or calls(H.task, "Connection::new")
+        for bb, t in news:
+            up = H.task_upvar(arg(H.tan, bb, t, 0))
+            src = H.capture(up) if up else None
+            ok = src is not None
+            why = "Connection::new is given %s" % (render(arg(H.tan, bb, t, 0), maxdepth=3))
+            if ok:
+                vals = leafs(src)
+                kinds = []
+                for v in vals:
+                    v = flow.strip(v)
+                    if v[0] == "call" and flow.short(v[1]).endswith("ProxiedStream::unproxied"):
+                        kinds.append("unproxied")
+                    elif v[0] == "field" and v[2] == "0" and flow.strip(v[1])[0] == "variant" and calls_in(v, "create_from_tokio") and not \
+                            [c for c in calls_in(v) if flow.short(c[1]).split("::")[-1] in ("into_inner", "get_mut", "get_ref", "into_parts")]:
+                        kinds.append("proxied")
+                    else:
+                        kinds.append("other:" + render(v, maxdepth=3))
+                ok = sorted(set(kinds)) == ["proxied", "unproxied"]
+                why = "the connection's stream is %s; expected the ProxiedStream returned by create_from_tokio (or ProxiedStream::unproxied(stream))" % sorted(set(kinds))
+            ctx.check(ok, R, "C15/effective-address/connection-on-proxied-stream", site(H.task, bb),
+                      reason=why + ": unwrapping it discards client bytes that arrived in the same read as the PROXY header, so an admitted connection is never served",
+                      detail="connection runs on the ProxiedStream (header remainder replayed)")
     # closure mapping ProxiedAddress -> source
     for c in ctx.prog.children(body.key):
         if c.kind != "Closure" or c is H.task:
